@@ -5,7 +5,7 @@
    below holds for ALL oracles. *)
 From Coq Require Import String List ZArith Bool.
 Require Import Blots.Num Blots.gen.Builtins Blots.Ast Blots.gen.ParensTable Blots.Formatter
-  Blots.proofs.Comments.
+  Blots.proofs.Comments Blots.proofs.Scan.
 Import ListNotations.
 Open Scope string_scope.
 Open Scope list_scope.
@@ -108,3 +108,21 @@ Check C09_cli_fixed_driver_accounts :
   forall e2s np rk p, forallb wf_stmt p = true ->
   doc_all_comments (format_cli_fixed e2s np rk p) = program_comments p.
 Print Assumptions C09_cli_fixed_driver_accounts.
+
+(* render_scan: the lexer-level scan (outside string literals) of the rendered text of a document
+   yields exactly the comments the document shows, in order — provided every code piece is
+   lexically self-contained (`//` and quotes only inside balanced string literals), every
+   comment piece is a comment text, and every comment is followed by a line break or ends the
+   document (wf_doc).  Together with the theorems above: scanning the formatter's text gives
+   the AST's comments. *)
+Theorem C09_render_scan : forall d, wf_doc d -> scan_comments (render d) = doc_comments d.
+Proof. exact render_scan. Qed.
+Check C09_render_scan : forall d, wf_doc d -> scan_comments (render d) = doc_comments d.
+Print Assumptions C09_render_scan.
+
+(* wf_doc holds for the document of the example program above (so the chain
+   scan (text) = doc comments = AST comments is non-vacuous) *)
+Example C09_render_scan_example :
+  let d := fmtd ex_e2s (needs_parens_tbl parens_table) record_key_impl 80 ex_commented 0 in
+  wf_doc d /\ scan_comments (render d) = expr_comments ex_commented.
+Proof. vm_compute. repeat split. Qed.
